@@ -156,6 +156,24 @@ _CMP = {'lt': operator.lt, 'le': operator.le, 'gt': operator.gt, 'ge': operator.
 _BIN = {'Add': operator.add, 'Sub': operator.sub, 'Mul': operator.mul, 'Div': operator.truediv}
 
 
+_EMPTY = {'k': '0', 't': 'NONE', 'u': 'NONE', 'a': [0, 0], 'x': '', 'mro': []}
+
+
+def snap_event(pid, idx, regs):
+    """The projection of every register: operations never change their operands (quantities are immutable),
+    so each register must still hold what the specification stored in it."""
+    from quantity import Quantity
+    import numbers
+    snap = []
+    for r in range(1, 7):
+        v = regs.get(r)
+        if isinstance(v, Quantity):
+            snap.append(proj(v))
+        else:
+            snap.append(dict(_EMPTY))
+    return {'op': 'Snap', 'id': '%s:%d:snap' % (pid, idx), 'snap': snap}
+
+
 def run_program(world, prog):
     """prog: dict(id=..., ops=[...]).  Returns the list of events (ops with the
     observed outcome added), starting with a Reset event."""
@@ -310,6 +328,8 @@ def run_program(world, prog):
                 else:
                     regs[op['z']] = res
             events.append(ev)
+            if idx % 7 == 6 or idx == len(prog['ops']) - 1:
+                events.append(snap_event(pid, idx, regs))
     finally:
         decimalfp.set_dflt_rounding_mode(ROUNDING.ROUND_HALF_EVEN)
         if mconv[0] is not None:
